@@ -179,9 +179,7 @@ class Machine:
                 b = 0
             else:
                 raise Undefined("read of buffer byte beyond the stored length")
-            if o.type == OST.STR and not self.u8:
-                return (carith.INT, carith.convert(carith.S8, b))    # plain char is signed on x86-64
-            return (carith.INT, b)
+            return (carith.INT, b)      # the byte value, whatever the buffer's element type
         if isinstance(e, nmfu.LastCharIntegerExpr):
             if ctx_start:
                 raise Broken("$last in start context")
